@@ -221,8 +221,73 @@ class NF:
         self._guard: list = []
         self.inlined: list = []  # (caller qual, callee qual) records, for evidence
         self.unresolved: list = []
+        self.meta: dict = {}  # atom text -> {"deps", "gdeps", "fn", "args": [Poly], "kws": {name: Poly}}
+        self.expand_squares = True
+        self.track_sg = False  # True: atoms under stop_gradient are renamed "⊥atom" (no gradient dependence); see freeze()
 
     # -- helpers -----------------------------------------------------------------------------
+    def _reg(self, p: Poly, fn: str = "", args=None, kws=None) -> Poly:
+        a = p.single_atom()
+        if a is not None and a not in self.meta:
+            self.meta[a] = {"deps": p.deps, "gdeps": p.gdeps, "fn": fn, "args": list(args or []), "kws": dict(kws or {})}
+        return p
+
+    def atom_gdeps(self, atom: str) -> frozenset:
+        m = self.meta.get(atom)
+        if m is not None:
+            return m["gdeps"]
+        return frozenset([atom]) if atom.isidentifier() else frozenset()
+
+    def atom_deps(self, atom: str) -> frozenset:
+        m = self.meta.get(atom)
+        if m is not None:
+            return m["deps"]
+        return frozenset([atom]) if atom.isidentifier() else frozenset()
+
+    def freeze(self, p: Poly) -> Poly:
+        """Value-preserving copy of ``p`` whose atoms carry no gradient dependence (what stop_gradient does)."""
+        if p.elems is not None:
+            q = Poly(dict(p.terms), p.deps, frozenset(), [self.freeze(e) for e in p.elems])
+            return q
+        t = {}
+        for mono, c in p.terms.items():
+            nm = []
+            for a, e in mono:
+                fa = a if a.startswith("⊥") else "⊥" + a
+                if fa not in self.meta:
+                    m = self.meta.get(a)
+                    self.meta[fa] = {"deps": (m["deps"] if m else (frozenset([a]) if a.isidentifier() else frozenset())), "gdeps": frozenset(),
+                                     "fn": m["fn"] if m else "", "args": m["args"] if m else [], "kws": m["kws"] if m else {}}
+                nm.append((fa, e))
+            k = tuple(sorted(nm))
+            t[k] = t.get(k, 0) + c
+        return Poly(t, p.deps, frozenset())
+
+    def unfreeze(self, p: Poly) -> Poly:
+        t = {}
+        for mono, c in p.terms.items():
+            k = tuple(sorted((a[1:] if a.startswith("⊥") else a, e) for a, e in mono))
+            t[k] = t.get(k, 0) + c
+        return Poly(t, p.deps, p.gdeps)
+
+    def deps_of(self, p: Poly) -> frozenset:
+        out = frozenset()
+        for a in p.atoms():
+            out |= self.atom_deps(a)
+        return out
+
+    def gdeps_of(self, p: Poly) -> frozenset:
+        out = frozenset()
+        for a in p.atoms():
+            out |= self.atom_gdeps(a)
+        return out
+
+    def term_gdeps(self, mono) -> frozenset:
+        out = frozenset()
+        for a, _ in mono:
+            out |= self.atom_gdeps(a)
+        return out
+
     def cfg_of(self, fn) -> CFG:
         if id(fn) not in self._cfgs:
             self._cfgs[id(fn)] = CFG(fn)
@@ -302,8 +367,21 @@ class NF:
             g = frozenset()
         return Poly.atom(f"{name}({a.canon()}, {b.canon()})", d, g)
 
+    def square(self, a: Poly) -> Poly:
+        """a**2; with ``expand_squares`` off a multi-term poly is kept as the atom sq(<sign-normalised a>)."""
+        if self.expand_squares or len(a.terms) <= 1:
+            return a.pow(2)
+        # sign normalisation: sq(x) == sq(-x)
+        lead = sorted(a.terms.items(), key=lambda kv: (len(kv[0]), kv[0]))[0][1]
+        b = a if lead > 0 else -a
+        name = f"sq({b.canon()})"
+        self.meta[name] = {"deps": b.deps, "gdeps": b.gdeps, "fn": "sq", "args": [b], "kws": {}}
+        return Poly.atom(name, b.deps, b.gdeps)
+
     def _pow(self, a: Poly, b: Poly) -> Poly:
         c = b.const_value()
+        if c is not None and c == 2:
+            return self.square(a)
         if c is not None and c.denominator == 1 and -6 <= c <= 6:
             return a.pow(int(c))
         d, g = a._meta(b)
@@ -394,7 +472,13 @@ class NF:
             if p.elems is not None and isinstance(i, int) and i < len(p.elems):
                 p = p.elems[i]
             else:
-                p = Poly.atom(f"{p.canon()}[{i}]", p.deps, p.gdeps)
+                base = p.single_atom()
+                name = f"{p.canon()}[{i}]"
+                if base is not None and base.isidentifier():
+                    # projection of a plain (tuple-valued) parameter: the component is a leaf of its own (role atom)
+                    p = self._reg(Poly.atom(name, {name}, {name} if base in p.gdeps else frozenset()), "proj", [])
+                else:
+                    p = self._reg(Poly.atom(name, p.deps, p.gdeps), "proj", [p])
         return p
 
     def _global(self, name: str, sc: Scope) -> Poly:
@@ -427,10 +511,10 @@ class NF:
             # namedtuple batch field -> positional projection (only for plain parameter-like bases named *batch*)
             if "batch" in ba.lower():
                 i = self.field_order.index(e.attr)
-                return Poly.atom(f"{ba}[{i}]", base.deps, base.gdeps)
+                return self._project(base, (i,))
         if e.attr == "T":
             return Poly.atom(f"T({base.canon()})", base.deps, base.gdeps)
-        return Poly.atom(f"{base.canon()}.{e.attr}", base.deps, base.gdeps if e.attr not in ("shape", "ndim", "dtype", "size") else frozenset())
+        return self._reg(Poly.atom(f"{base.canon()}.{e.attr}", base.deps, base.gdeps if e.attr not in ("shape", "ndim", "dtype", "size") else frozenset()), "attr", [base])
 
     def _e_Subscript(self, e, sc, at, depth):
         base = self.poly(e.value, sc, at, depth)
@@ -438,8 +522,10 @@ class NF:
             i = e.slice.value
             if -len(base.elems) <= i < len(base.elems):
                 return base.elems[i]
+        if isinstance(e.slice, ast.Constant) and isinstance(e.slice.value, int):
+            return self._project(base, (e.slice.value,))
         idx, d = self._slice(e.slice, sc, at, depth)
-        return Poly.atom(f"{base.canon()}[{idx}]", base.deps | d, base.gdeps)
+        return self._reg(Poly.atom(f"{base.canon()}[{idx}]", base.deps | d, base.gdeps), "subscript", [base])
 
     def _slice(self, s, sc, at, depth):
         if isinstance(s, ast.Slice):
@@ -577,25 +663,41 @@ class NF:
         deps = frozenset(fdeps).union(*[a.deps for a in args], *[v.deps for v in kws.values()])
         g = frozenset() if nondiff else frozenset(fg).union(*[a.gdeps for a in args], *[v.gdeps for v in kws.values()])
         txt = ", ".join([a.canon() for a in args] + [f"{k}={v.canon()}" for k, v in sorted(kws.items())])
-        return Poly.atom(f"{fname}({txt})", deps, g)
+        name = f"{fname}({txt})"
+        self.meta[name] = {"deps": deps, "gdeps": g, "fn": fname, "args": list(args), "kws": dict(kws)}
+        return Poly.atom(name, deps, g)
 
     def _libcall(self, op: str, args, kws, e) -> Poly:
         short = op.split(".")[-1]
         if short in self.strip and args:
             p = args[0]
             if short == "stop_gradient":
-                return p.with_meta(p.deps, frozenset())
+                return self.freeze(p) if self.track_sg else p.with_meta(p.deps, frozenset())
             if short in ("int", "item"):
                 return p
             return p
+        if short in ("squared_error", "l2_loss", "huber_loss") and not args[1:] and ("predictions" in kws or "targets" in kws):
+            # keyword form optax.squared_error(predictions=P, targets=T)
+            args = [kws.pop("predictions", args[0] if args else Poly.const(0))] + ([kws.pop("targets")] if "targets" in kws else [])
+        elif short in ("squared_error", "l2_loss", "huber_loss") and len(args) == 1 and "targets" in kws:
+            args = [args[0], kws.pop("targets")]
         if short in ("square",) and len(args) == 1:
-            return args[0].pow(2)
-        if short in ("squared_error",) and len(args) == 2:
-            return (args[0] - args[1]).pow(2)
-        if short in ("l2_loss",) and len(args) == 2:
-            return (args[0] - args[1]).pow(2).scale(Fraction(1, 2))
-        if short in ("l2_loss",) and len(args) == 1:
-            return args[0].pow(2).scale(Fraction(1, 2))
+            return self.square(args[0])
+        if short in ("squared_error",) and len(args) == 2 and not kws:
+            return self.square(args[0] - args[1])
+        if short in ("l2_loss",) and len(args) == 2 and not kws:
+            return self.square(args[0] - args[1]).scale(Fraction(1, 2))
+        if short in ("l2_loss", "squared_error") and len(args) == 1 and not kws:
+            return self.square(args[0]).scale(Fraction(1, 2) if short == "l2_loss" else 1)
+        if short == "abs" or short in ("absolute", "fabs"):
+            short = "abs"
+        if short == "huber_loss" and len(args) == 2:
+            # optax.huber_loss(predictions, targets, delta) == huber of |P - T|
+            d = args[0] - args[1]
+            lead = sorted(d.terms.items(), key=lambda kv: (len(kv[0]), kv[0]))[0][1] if d.terms else 1
+            d = d if lead > 0 else -d
+            inner = self._mkcall("abs", [d], {})
+            return self._mkcall("huber", [inner], kws)
         if short == "negative" and len(args) == 1:
             return -args[0]
         if short in ("add", "subtract", "multiply", "divide", "true_divide") and len(args) == 2:
@@ -614,13 +716,18 @@ class NF:
                 if m == () and short == "mean":
                     out = out + Poly({(): c})
                     continue
-                inner = Poly({m: Fraction(1)}).canon()
-                out = out + Poly({((f"{short}({inner}{', ' + suffix if suffix else ''})", 1),): c})
+                inner_p = Poly({m: Fraction(1)}, p.deps, p.gdeps)
+                inner = inner_p.canon()
+                nm = f"{short}({inner}{', ' + suffix if suffix else ''})"
+                self.meta[nm] = {"deps": p.deps, "gdeps": p.gdeps, "fn": short, "args": [inner_p] + list(rest), "kws": dict(kws)}
+                out = out + Poly({((nm, 1),): c})
             return out.with_meta(p.deps.union(*[a.deps for a in rest]) if rest else p.deps, p.gdeps)
         if short in COMMUTATIVE and len(args) == 2 and not kws:
             args = sorted(args, key=lambda p: p.canon())
-        if short in ("abs", "absolute", "fabs"):
-            short = "abs"
+        if short == "abs" and len(args) == 1 and args[0].terms:
+            lead = sorted(args[0].terms.items(), key=lambda kv: (len(kv[0]), kv[0]))[0][1]
+            if lead < 0:
+                args = [-args[0]]
         return self._mkcall(short, args, kws, nondiff=short in NONDIFF)
 
     # -- repo callee inlining -------------------------------------------------------------------
